@@ -320,6 +320,26 @@ def gen_cache(facts):
             keyed.append(name)
       if i:
             infl.append(name)
+    # how the body enters the key: which `errors` mode of str.encode reproduces the digest of a body with a lone surrogate
+    probe_body = '<p>x\ud800</p>'
+    t0 = PageTemplate('x')
+    bd = t0.builtins.copy()
+    bd.update(t0.extra_builtins)
+    from chameleon.template import BaseTemplate
+    want = BaseTemplate.digest(t0, probe_body, tuple(sorted(bd)))        # the part of the key that stands for the source
+    mode = 'unknown'
+    from chameleon.template import get_pkg_digest
+    for cand in ('strict', 'ignore', 'replace', 'surrogatepass', 'backslashreplace', 'xmlcharrefreplace', 'namereplace'):
+        try:
+            sha = get_pkg_digest()
+            sha.update(probe_body.encode('utf-8', cand))
+            sha.update(type(t0).__name__.encode('utf-8'))
+            if sha.hexdigest() == want:
+                mode = cand
+                break
+        except Exception:
+            continue
+    facts['digest_body_errors'] = mode
     facts['cache_unsound_value_pairs'] = unsound
     facts['cache_keyed'] = keyed
     facts['cache_influencing'] = infl
@@ -329,7 +349,9 @@ def gen_cache(facts):
             'def cacheInfluencing : List String := ' + lean_strs(infl),
             'def cacheOptionsProbed : List String := ' + lean_strs(list(CACHE_OPTIONS)),
             '/-- pairs of option values that give different code under the same key (observed; expected: those of D-15b only) -/',
-            'def cacheUnsoundValuePairs : List String := ' + lean_strs(unsound)]
+            'def cacheUnsoundValuePairs : List String := ' + lean_strs(unsound),
+            '/-- the `errors` mode of `str.encode` that reproduces `digest` on a body with a lone surrogate (observed) -/',
+            'def digestBodyErrors : String := ' + lean_str(mode)]
 
 
 def gen_ties(facts):
